@@ -30,8 +30,9 @@ Inductive case :=
 (* httpProxyErrorHandler on an error of the given kind *)
 | CErr (e : errkind) (impl : Z)
 (* a real upstream answering after [delay] behind HTTPProxy with the transport built from
-   ResponseHeaderTimeout = [limit] (all in ms): status seen by the client, elapsed ms *)
-| CServe (limit delay ust : Z) (impl_status elapsed slack : Z)
+   ResponseHeaderTimeout = [limit] (all in ms): status seen by the client, elapsed ms
+   and the number of requests the upstream received for it *)
+| CServe (limit delay ust : Z) (impl_status elapsed slack hits : Z)
 (* the dial timeout in action, for each kind of transport (plain, skip-verify TLS, per-route host
    override): [limit] in ns; [connect] = a lower bound of what connecting costs on loopback (1000 ns is
    never met); status seen by the client *)
@@ -58,11 +59,13 @@ Definition check_case (c : case) : N :=
       let same := impl =? error_status e in
       let spec := match e with ENetTimeout => impl =? 504 | _ => negb (impl =? 504) end in
       verdict same spec None true
-  | CServe limit delay ust st elapsed slack =>
-      let m := serve limit delay ust in
-      let same := (st =? fst m) && (snd m - 20 <=? elapsed) && (elapsed <=? snd m + slack) in
+  | CServe limit delay ust st elapsed slack hits =>
+      let '(mst, mt, mhits) := serve_n attempts_of_proxy limit delay ust in
+      let same := (st =? mst) && (mt - 20 <=? elapsed) && (elapsed <=? mt + slack) && (hits =? mhits) in
+      (* "within that time": the scheduling allowance of the spec grows with the limit but stays
+         below a second attempt for the long limits the harness includes *)
       let spec := if (0 <? limit) && (limit + 20 <=? delay)
-                  then (st =? 504) && (elapsed <=? limit + slack)
+                  then (st =? 504) && (elapsed <=? limit + Z.min slack (limit / 2 + 400))
                   else if (limit =? 0) || (delay + 20 <=? limit) then st =? ust else true in
       verdict same spec None true
   | CDial _ limit connect ust st =>
